@@ -1,6 +1,946 @@
-//! C04 — not built yet.
+//! C04 — commitment signatures bind to the BOLT-3 transaction of the validated content.
+//!
+//! One group against the Lean model `bolt3` (structured BOLT-3 builder / decoder / entry points):
+//!  (i)   `content`: the real LDK-built counterparty commitment (the tx phase 2 signs) is rendered into
+//!        the structured form by matching every script_pubkey against scripts the harness builds with its
+//!        *own* script builder, re-serialised with the harness' *own* serializer (must give LDK's bytes)
+//!        and compared field by field with the Lean `canon` (correspondence);
+//!  (ii)  every signature returned by the real phase 1 / phase 2 is verified with secp256k1 under the
+//!        channel's funding key against a sighash computed from the canonical bytes, HTLC signatures
+//!        against HTLC transactions the harness builds itself;
+//!  (iii) structured single-field mutations (`p1 …`, mirrored in the model) and raw byte flips
+//!        (`p1raw …`, implementation only) of the transaction and of the witness scripts go to the real
+//!        phase 1; whatever it accepts must be byte for byte the canonical tx of the content the signer
+//!        recorded as validated (`mutated-tx-signed`);
+//!  (iv)  phase-1(canon) and phase-2 signatures are equal (`phase-sig-differs`, `phase-disagree`).
 use crate::common::*;
+#[path = "c04_bolt3.rs"]
+mod bolt3;
+use bolt3::*;
+use lightning_signer::lightning::sign::ChannelSigner;
+use lightning_signer::bitcoin::absolute::LockTime;
+use lightning_signer::bitcoin::bip32::DerivationPath;
+use lightning_signer::bitcoin::consensus::{deserialize, serialize as cons_serialize};
+use lightning_signer::bitcoin::hashes::{sha256, Hash};
+use lightning_signer::bitcoin::secp256k1::{ecdsa::Signature, Message, PublicKey, Secp256k1};
+use lightning_signer::bitcoin::sighash::{EcdsaSighashType, SighashCache};
+use lightning_signer::bitcoin::transaction::Version;
+use lightning_signer::bitcoin::{Amount, Network, OutPoint, ScriptBuf, Sequence, Transaction, TxIn, TxOut, Txid, Witness};
+use lightning_signer::channel::{Channel, ChannelId, ChannelSetup, CommitmentType};
+use lightning_signer::lightning::types::payment::PaymentHash;
+use lightning_signer::node::Node;
+use lightning_signer::policy::filter::{FilterResult, FilterRule, PolicyFilter};
+use lightning_signer::policy::simple_validator::{make_default_simple_policy, SimpleValidatorFactory};
+use lightning_signer::tx::tx::HTLCInfo2;
+use lightning_signer::util::test_utils::key::{make_test_counterparty_points, make_test_pubkey};
+use lightning_signer::util::test_utils::*;
+use std::collections::BTreeMap;
+use std::panic::{catch_unwind, AssertUnwindSafe};
+use std::sync::Arc;
+
+#[derive(Clone, Debug)]
+struct SetupD {
+    ctype: char,
+    outbound: bool,
+    holder_delay: u16,
+    cp_delay: u16,
+    txid: u8,
+    vout: u32,
+    chan_value: u64,
+    /// 0 default policy (+ safe-type demoted), 1 lenient, 2 lenient + `policy-commitment` demoted
+    mode: u8,
+    point: u8,
+}
+
+#[derive(Clone, Debug, PartialEq)]
+struct ContentD {
+    commit_num: u64,
+    feerate: u32,
+    to_cs: u64,
+    to_bc: u64,
+    /// (offered, value, hash id, cltv) in op-line order
+    htlcs: Vec<(bool, u64, i64, u32)>,
+}
+
+impl ContentD {
+    fn lists(&self) -> (Vec<HTLCInfo2>, Vec<HTLCInfo2>) {
+        let mk = |h: &(bool, u64, i64, u32)| HTLCInfo2 {
+            value_sat: h.1,
+            payment_hash: PaymentHash(payment_hash_bytes(h.2)),
+            cltv_expiry: h.3,
+        };
+        (
+            self.htlcs.iter().filter(|h| h.0).map(mk).collect(),
+            self.htlcs.iter().filter(|h| !h.0).map(mk).collect(),
+        )
+    }
+}
+
+fn ctype_of(c: char) -> CommitmentType {
+    match c {
+        'l' => CommitmentType::Legacy,
+        's' => CommitmentType::StaticRemoteKey,
+        'a' => CommitmentType::Anchors,
+        _ => CommitmentType::AnchorsZeroFeeHtlc,
+    }
+}
+fn is_anchors(c: char) -> bool { c == 'a' || c == 'z' }
+fn ldk_anchors(c: char) -> bool { c == 'z' }
+
+fn policy_for(mode: u8) -> lightning_signer::policy::simple_validator::SimplePolicy {
+    let mut p = make_default_simple_policy(Network::Testnet);
+    let mut rules = vec![FilterRule::new_warn("policy-channel-safe-type")];
+    if mode >= 1 {
+        rules.push(FilterRule { tag: "policy-channel-".into(), is_prefix: true, action: FilterResult::Warn });
+        for t in [
+            "policy-commitment-fee-range",
+            "policy-commitment-htlc-cltv-range",
+            "policy-commitment-htlc-inflight-limit",
+            "policy-commitment-htlc-count-limit",
+            "policy-commitment-htlc-routing-balance",
+            "policy-commitment-payment-velocity",
+            "policy-routing-balanced",
+            "policy-routing-cltv-delta",
+        ] {
+            rules.push(FilterRule::new_warn(t));
+        }
+    }
+    if mode == 2 {
+        rules.push(FilterRule::new_warn("policy-commitment"));
+    }
+    p.filter = PolicyFilter { rules };
+    p
+}
+
+fn make_setup(sd: &SetupD) -> ChannelSetup {
+    ChannelSetup {
+        is_outbound: sd.outbound,
+        channel_value_sat: sd.chan_value,
+        push_value_msat: 0,
+        funding_outpoint: OutPoint { txid: Txid::from_slice(&txid_bytes(sd.txid as i64)).unwrap(), vout: sd.vout },
+        holder_selected_contest_delay: sd.holder_delay,
+        holder_shutdown_script: None,
+        counterparty_points: make_test_counterparty_points(),
+        counterparty_selected_contest_delay: sd.cp_delay,
+        counterparty_shutdown_script: None,
+        commitment_type: ctype_of(sd.ctype),
+    }
+}
+
+struct Live {
+    node: Arc<Node>,
+    id: ChannelId,
+}
+
+/// A fresh node + channel in the state "about to sign counterparty commitment `commit_num`".
+fn fresh(sd: &SetupD, c: &ContentD) -> Result<Live, String> {
+    let node = init_node(TEST_NODE_CONFIG, TEST_SEED[1]);
+    node.set_validator_factory(Arc::new(SimpleValidatorFactory::new_with_policy(policy_for(sd.mode))));
+    let (id, _) = node.new_channel(1, &[2u8; 33], &node).map_err(|e| format!("new_channel: {:?}", e))?;
+    node.setup_channel(id.clone(), None, make_setup(sd), &DerivationPath::master())
+        .map_err(|e| format!("setup_channel: {}", e.message()))?;
+    let cn = c.commit_num;
+    node.with_channel(&id, |chan| {
+        chan.enforcement_state.set_next_counterparty_commit_num_for_testing(cn, make_test_pubkey(0x10));
+        chan.enforcement_state.set_next_counterparty_revoke_num_for_testing(cn.saturating_sub(1));
+        Ok(())
+    })
+    .map_err(|e| format!("with_channel: {}", e.message()))?;
+    // outgoing payments (HTLCs the counterparty receives) need an approved invoice / keysend
+    let mut per_hash: BTreeMap<i64, u64> = BTreeMap::new();
+    for h in c.htlcs.iter().filter(|h| !h.0) {
+        let e = per_hash.entry(h.2).or_insert(0);
+        *e = e.saturating_add(h.1.saturating_mul(1000));
+    }
+    for (h, msat) in per_hash {
+        let _ = node.add_keysend(make_test_pubkey(1), PaymentHash(payment_hash_bytes(h)), msat);
+    }
+    Ok(Live { node, id })
+}
+
+fn key_tab(chan: &Channel, point: &PublicKey) -> KeyTab {
+    let k = chan.make_counterparty_tx_keys(point);
+    let z = [0u8; 33];
+    KeyTab {
+        role: vec![
+            z,
+            k.revocation_key.to_public_key().serialize(),
+            k.broadcaster_delayed_payment_key.to_public_key().serialize(),
+            k.broadcaster_htlc_key.to_public_key().serialize(),
+            k.countersignatory_htlc_key.to_public_key().serialize(),
+            chan.keys.pubkeys().payment_point.serialize(),
+            chan.setup.counterparty_points.funding_pubkey.serialize(),
+            chan.keys.pubkeys().funding_pubkey.serialize(),
+        ],
+    }
+}
+
+/// obscure factor, computed by the harness itself: SHA-256(funder payment basepoint ‖ fundee's), low 48 bits
+fn obscure_factor(chan: &Channel) -> u64 {
+    let holder = chan.keys.pubkeys().payment_point.serialize();
+    let cp = chan.setup.counterparty_points.payment_point.serialize();
+    let mut d = Vec::new();
+    if chan.setup.is_outbound {
+        d.extend_from_slice(&holder);
+        d.extend_from_slice(&cp);
+    } else {
+        d.extend_from_slice(&cp);
+        d.extend_from_slice(&holder);
+    }
+    let h = sha256::Hash::hash(&d).to_byte_array();
+    h[26..32].iter().fold(0u64, |a, b| (a << 8) | *b as u64)
+}
+
+/// candidate templates of a content: (template, htlc index)
+fn candidates(sd: &SetupD, c: &ContentD) -> Vec<(Spk, Option<usize>)> {
+    let mut v: Vec<(Spk, Option<usize>)> = vec![
+        (Spk::Wpkh(5), None),
+        (Spk::Wsh(Tpl::RemoteA(5)), None),
+        (Spk::Wsh(Tpl::Local { rev: 1, delay: sd.holder_delay as i64, delayed: 2 }), None),
+        (Spk::Wsh(Tpl::Local { rev: 1, delay: sd.cp_delay as i64, delayed: 2 }), None),
+        (Spk::Wsh(Tpl::Anchor(6)), None),
+        (Spk::Wsh(Tpl::Anchor(7)), None),
+    ];
+    for (i, h) in c.htlcs.iter().enumerate() {
+        for csv in [ldk_anchors(sd.ctype), !ldk_anchors(sd.ctype)] {
+            let t = if h.0 {
+                Tpl::Off { csv, rev: 1, k1: 4, k2: 3, hash: h.2, hashlen: 20 }
+            } else {
+                Tpl::Recv { csv, rev: 1, k1: 4, hash: h.2, hashlen: 20, k2: 3, cltv: h.3 as i64 }
+            };
+            v.push((Spk::Wsh(t), Some(i)));
+        }
+    }
+    v
+}
+
+struct Base {
+    kt: KeyTab,
+    stx: STx,
+    ws: Vec<Option<Tpl>>,
+    /// per output: the HTLC (index into content.htlcs) it carries
+    htlc_of: Vec<Option<usize>>,
+    bytes: Vec<u8>,
+}
+
+/// Render a real transaction into the structured form.
+fn render_tx(sd: &SetupD, c: &ContentD, kt: &KeyTab, tx: &Transaction) -> (STx, Vec<Option<Tpl>>, Vec<Option<usize>>) {
+    let cands: Vec<(Spk, Vec<u8>, Option<usize>)> =
+        candidates(sd, c).into_iter().map(|(s, h)| { let b = spk_bytes(&s, kt); (s, b, h) }).collect();
+    let mut used = vec![false; c.htlcs.len()];
+    let mut outs = Vec::new();
+    let mut ws = Vec::new();
+    let mut htlc_of = Vec::new();
+    for o in &tx.output {
+        let spkb = o.script_pubkey.as_bytes();
+        // among matching unused HTLC candidates with the same value take the smallest (cltv, hash) (LDK's tie-break)
+        let mut best: Option<(&Spk, Option<usize>)> = None;
+        for (s, b, h) in &cands {
+            if &b[..] != spkb { continue; }
+            match h {
+                None => { if best.is_none() { best = Some((s, None)); } }
+                Some(i) => {
+                    if used[*i] || c.htlcs[*i].1 != o.value.to_sat() { continue; }
+                    let better = match best {
+                        Some((_, Some(j))) => (c.htlcs[*i].3, c.htlcs[*i].2) < (c.htlcs[j].3, c.htlcs[j].2),
+                        _ => true,
+                    };
+                    if better { best = Some((s, Some(*i))); }
+                }
+            }
+        }
+        match best {
+            Some((s, h)) => {
+                if let Some(i) = h { used[i] = true; }
+                outs.push(SOut { value: o.value.to_sat(), spk: s.clone() });
+                ws.push(match s { Spk::Wsh(t) => Some(t.clone()), _ => None });
+                htlc_of.push(h);
+            }
+            None => {
+                outs.push(SOut { value: o.value.to_sat(), spk: Spk::Raw(spkb.to_vec()) });
+                ws.push(None);
+                htlc_of.push(None);
+            }
+        }
+    }
+    let inputs = tx.input.iter().map(|i| {
+        let tb: &[u8] = i.previous_output.txid.as_ref();
+        SIn {
+            txid: if tb.iter().all(|x| *x == tb[0]) { tb[0] as i64 } else { -1 },
+            vout: i.previous_output.vout,
+            sequence: i.sequence.0,
+            script_sig: !i.script_sig.is_empty(),
+            witness: !i.witness.is_empty(),
+        }
+    }).collect();
+    (STx { version: tx.version.0 as u32, locktime: tx.lock_time.to_consensus_u32(), inputs, outs }, ws, htlc_of)
+}
+
+fn htlc_weight(sd: &SetupD, offered: bool) -> u64 {
+    match (offered, ldk_anchors(sd.ctype)) { (true, true) => 666, (true, false) => 663, (false, true) => 706, (false, false) => 703 }
+}
+
+/// the harness' own HTLC-transaction rule: (vout, locktime, sequence, value or None, single|acp)
+fn htlc_tx_fields(sd: &SetupD, c: &ContentD, htlc_of: &[Option<usize>]) -> Vec<(u32, u32, u32, Option<u64>, bool, usize)> {
+    let mut v = Vec::new();
+    for (i, h) in htlc_of.iter().enumerate() {
+        if let Some(hi) = h {
+            let (offered, value, _, cltv) = c.htlcs[*hi];
+            let val = if sd.ctype == 'z' { Some(value) } else {
+                let fee = c.feerate as u64 * htlc_weight(sd, offered) / 1000;
+                value.checked_sub(fee)
+            };
+            v.push((i as u32, if offered { cltv } else { 0 }, if ldk_anchors(sd.ctype) { 1 } else { 0 }, val, ldk_anchors(sd.ctype), *hi));
+        }
+    }
+    v
+}
+
+fn funding_redeemscript(kt: &KeyTab) -> ScriptBuf {
+    let (a, b) = (kt.bytes(6), kt.bytes(7));
+    let (lo, hi) = if a[..] < b[..] { (a, b) } else { (b, a) };
+    let mut v = vec![0x52u8, 33];
+    v.extend_from_slice(&lo);
+    v.push(33);
+    v.extend_from_slice(&hi);
+    v.extend_from_slice(&[0x52, 0xae]);
+    ScriptBuf::from(v)
+}
+
+fn commit_sighash(kt: &KeyTab, chan_value: u64, tx_bytes: &[u8]) -> Option<[u8; 32]> {
+    let tx: Transaction = deserialize(tx_bytes).ok()?;
+    SighashCache::new(&tx).p2wsh_signature_hash(0, &funding_redeemscript(kt), Amount::from_sat(chan_value), EcdsaSighashType::All).ok().map(|h| h.to_byte_array())
+}
+
+fn verify_commit_sig(kt: &KeyTab, chan_value: u64, tx_bytes: &[u8], sig: &Signature) -> bool {
+    let tx: Transaction = match deserialize(tx_bytes) { Ok(t) => t, Err(_) => return false };
+    let h = match SighashCache::new(&tx).p2wsh_signature_hash(0, &funding_redeemscript(kt), Amount::from_sat(chan_value), EcdsaSighashType::All) {
+        Ok(h) => h, Err(_) => return false };
+    let pk = match PublicKey::from_slice(&kt.bytes(7)) { Ok(p) => p, Err(_) => return false };
+    Secp256k1::verification_only().verify_ecdsa(&Message::from_digest(h.to_byte_array()), sig, &pk).is_ok()
+}
+
+fn verify_htlc_sig(sd: &SetupD, c: &ContentD, kt: &KeyTab, commit_bytes: &[u8], f: &(u32, u32, u32, Option<u64>, bool, usize), sig: &Signature) -> bool {
+    let commit: Transaction = match deserialize(commit_bytes) { Ok(t) => t, Err(_) => return false };
+    let value = match f.3 { Some(v) => v, None => return false };
+    let out_script = ScriptBuf::from(script_bytes(&Tpl::Local { rev: 1, delay: sd.holder_delay as i64, delayed: 2 }, kt));
+    let tx = Transaction {
+        version: Version::TWO,
+        lock_time: LockTime::from_consensus(f.1),
+        input: vec![TxIn { previous_output: OutPoint { txid: commit.compute_txid(), vout: f.0 }, script_sig: ScriptBuf::new(), sequence: Sequence(f.2), witness: Witness::new() }],
+        output: vec![TxOut { value: Amount::from_sat(value), script_pubkey: out_script.to_p2wsh() }],
+    };
+    let (offered, amount, hash, cltv) = c.htlcs[f.5];
+    let redeem = if offered {
+        Tpl::Off { csv: ldk_anchors(sd.ctype), rev: 1, k1: 4, k2: 3, hash, hashlen: 20 }
+    } else {
+        Tpl::Recv { csv: ldk_anchors(sd.ctype), rev: 1, k1: 4, hash, hashlen: 20, k2: 3, cltv: cltv as i64 }
+    };
+    let ty = if f.4 { EcdsaSighashType::SinglePlusAnyoneCanPay } else { EcdsaSighashType::All };
+    let h = match SighashCache::new(&tx).p2wsh_signature_hash(0, &ScriptBuf::from(script_bytes(&redeem, kt)), Amount::from_sat(amount), ty) {
+        Ok(h) => h, Err(_) => return false };
+    let pk = match PublicKey::from_slice(&kt.bytes(4)) { Ok(p) => p, Err(_) => return false };
+    Secp256k1::verification_only().verify_ecdsa(&Message::from_digest(h.to_byte_array()), sig, &pk).is_ok()
+}
+
+/// build the real LDK transaction of a content on a live channel
+fn ldk_tx(live: &Live, sd: &SetupD, c: &ContentD) -> Result<(Transaction, KeyTab, u64), String> {
+    let point = make_test_pubkey(sd.point);
+    let (off, recv) = c.lists();
+    let c2 = c.clone();
+    let r = catch_unwind(AssertUnwindSafe(|| {
+        live.node.with_channel(&live.id, |chan| {
+            let kt = key_tab(chan, &point);
+            let obs = obscure_factor(chan);
+            let htlcs = Channel::htlcs_info2_to_oic(&off, &recv);
+            let ctx = chan.make_counterparty_commitment_tx(&point, c2.commit_num, c2.feerate, c2.to_cs, c2.to_bc, htlcs);
+            Ok((ctx.trust().built_transaction().transaction.clone(), kt, obs))
+        })
+    }));
+    match r {
+        Ok(Ok(x)) => Ok(x),
+        Ok(Err(e)) => Err(format!("status {}", e.message())),
+        Err(_) => Err("panic".into()),
+    }
+}
+
+fn keys_only(live: &Live, sd: &SetupD) -> (KeyTab, u64) {
+    let point = make_test_pubkey(sd.point);
+    live.node.with_channel(&live.id, |chan| Ok((key_tab(chan, &point), obscure_factor(chan)))).unwrap()
+}
+
+#[derive(Clone, Copy, PartialEq, Debug)]
+enum Pol { Ok, Err, Panic }
+impl Pol {
+    fn s(&self) -> &'static str { match self { Pol::Ok => "ok", Pol::Err => "err", Pol::Panic => "panic" } }
+}
+
+enum P2Res { Ok(Signature, Vec<Signature>), Err(String), Panic }
+
+fn real_p2(live: &Live, sd: &SetupD, c: &ContentD) -> P2Res {
+    let point = make_test_pubkey(sd.point);
+    let (off, recv) = c.lists();
+    let r = catch_unwind(AssertUnwindSafe(|| {
+        live.node.with_channel(&live.id, |chan| {
+            chan.sign_counterparty_commitment_tx_phase2(&point, c.commit_num, c.feerate, c.to_cs, c.to_bc, off.clone(), recv.clone())
+        })
+    }));
+    match r {
+        Ok(Ok((s, h))) => P2Res::Ok(s, h),
+        Ok(Err(e)) => P2Res::Err(e.message().to_string()),
+        Err(_) => P2Res::Panic,
+    }
+}
+
+fn pol_of(sd: &SetupD, c: &ContentD) -> Pol {
+    match fresh(sd, c) {
+        Err(_) => Pol::Err,
+        Ok(live) => match real_p2(&live, sd, c) {
+            P2Res::Ok(..) => Pol::Ok,
+            P2Res::Err(_) => Pol::Err,
+            P2Res::Panic => Pol::Panic,
+        },
+    }
+}
+
+enum P1Res { Ok(Signature, u64, u64, Vec<u8>), Err(String), Panic }
+
+/// real phase 1 on (tx bytes, witness scripts); on acceptance also returns the balances the signer
+/// recorded as validated and the canonical LDK bytes of that recorded content
+fn real_p1(live: &Live, sd: &SetupD, c: &ContentD, tx: &Transaction, ws: &[Vec<u8>]) -> P1Res {
+    let point = make_test_pubkey(sd.point);
+    let (off, recv) = c.lists();
+    let r = catch_unwind(AssertUnwindSafe(|| {
+        live.node.with_channel(&live.id, |chan| {
+            let sig = chan.sign_counterparty_commitment_tx(tx, ws, &point, c.commit_num, c.feerate, off.clone(), recv.clone())?;
+            let info = chan.enforcement_state.current_counterparty_commit_info.clone().expect("recorded info");
+            let htlcs = Channel::htlcs_info2_to_oic(&info.offered_htlcs, &info.received_htlcs);
+            let ctx = chan.make_counterparty_commitment_tx(&point, c.commit_num, info.feerate_per_kw, info.to_countersigner_value_sat, info.to_broadcaster_value_sat, htlcs);
+            let bytes = cons_serialize(&ctx.trust().built_transaction().transaction);
+            Ok((sig, info.to_countersigner_value_sat, info.to_broadcaster_value_sat, bytes))
+        })
+    }));
+    match r {
+        Ok(Ok((s, a, b, bytes))) => P1Res::Ok(s, a, b, bytes),
+        Ok(Err(e)) => P1Res::Err(e.message().to_string()),
+        Err(_) => P1Res::Panic,
+    }
+}
+
+fn classify_err(m: &str) -> &'static str {
+    if m.contains("recomposed tx mismatch") { "mismatch" }
+    else if m.contains("decode_commitment_tx") { "decode" }
+    else if m.contains("len(tx.output)") { "arg" }
+    else if m.contains("policy") || m.contains("validate_") { "policy" }
+    else { "other" }
+}
+
+fn parse_setup(t: &[&str]) -> Option<(char, bool, u16, u16, u8, u32, u64)> {
+    Some((t[1].chars().next()?, t[2] == "1", t[3].parse().ok()?, t[4].parse().ok()?, t[5].parse().ok()?, t[6].parse().ok()?, t[7].parse().ok()?))
+}
+
+fn parse_content(t: &[&str]) -> Option<ContentD> {
+    let mut htlcs = Vec::new();
+    for h in &t[9..] {
+        let p: Vec<&str> = h.split(':').collect();
+        htlcs.push((p[0] == "o", p[1].parse().ok()?, p[2].parse().ok()?, p[3].parse().ok()?));
+    }
+    Some(ContentD { commit_num: t[1].parse().ok()?, feerate: t[2].parse().ok()?, to_cs: t[3].parse().ok()?, to_bc: t[4].parse().ok()?, htlcs })
+}
+
+/// ranks of the candidate script_pubkeys by byte order; returns the `content` op line
+fn content_line(sd: &SetupD, c: &ContentD, kt: &KeyTab) -> String {
+    let remote = if ldk_anchors(sd.ctype) { Spk::Wsh(Tpl::RemoteA(5)) } else { Spk::Wpkh(5) };
+    let local = Spk::Wsh(Tpl::Local { rev: 1, delay: sd.holder_delay as i64, delayed: 2 });
+    let mut spks: Vec<Vec<u8>> = vec![spk_bytes(&remote, kt), spk_bytes(&local, kt), spk_bytes(&Spk::Wsh(Tpl::Anchor(6)), kt), spk_bytes(&Spk::Wsh(Tpl::Anchor(7)), kt)];
+    for h in &c.htlcs {
+        let t = if h.0 {
+            Tpl::Off { csv: ldk_anchors(sd.ctype), rev: 1, k1: 4, k2: 3, hash: h.2, hashlen: 20 }
+        } else {
+            Tpl::Recv { csv: ldk_anchors(sd.ctype), rev: 1, k1: 4, hash: h.2, hashlen: 20, k2: 3, cltv: h.3 as i64 }
+        };
+        spks.push(spk_bytes(&Spk::Wsh(t), kt));
+    }
+    let mut sorted = spks.clone();
+    sorted.sort();
+    sorted.dedup();
+    let rank = |b: &Vec<u8>| sorted.binary_search(b).unwrap() + 1;
+    let mut s = format!("content {} {} {} {} {} {} {} {}", c.commit_num, c.feerate, c.to_cs, c.to_bc, rank(&spks[0]), rank(&spks[1]), rank(&spks[2]), rank(&spks[3]));
+    for (i, h) in c.htlcs.iter().enumerate() {
+        s += &format!(" {}:{}:{}:{}:{}", if h.0 { "o" } else { "r" }, h.1, h.2, h.3, rank(&spks[4 + i]));
+    }
+    s
+}
+
+/// the balances the decoder will extract from a structured tx (harness-side prediction used only to
+/// pick the content whose policy verdict is handed to the model)
+fn predicted_balances(sd: &SetupD, stx: &STx) -> (u64, u64) {
+    let mut cs = 0;
+    let mut bc = 0;
+    let (mut has_cs, mut has_bc) = (false, false);
+    for o in &stx.outs {
+        match &o.spk {
+            Spk::Wpkh(_) if !is_anchors(sd.ctype) && !has_cs => { cs = o.value; has_cs = true }
+            Spk::Wsh(Tpl::RemoteA(_)) if is_anchors(sd.ctype) && !has_cs => { cs = o.value; has_cs = true }
+            Spk::Wsh(Tpl::Local { .. }) if !has_bc => { bc = o.value; has_bc = true }
+            _ => {}
+        }
+    }
+    (cs, bc)
+}
+
+pub struct C04;
+
+struct Ctx {
+    sd: Option<SetupD>,
+    c: Option<ContentD>,
+    base: Option<Base>,
+    live: Option<Live>,
+    p2: Option<Option<Signature>>, // Some(Some(sig)) accepted, Some(None) refused
+}
+
+impl Ctx {
+    fn live(&mut self) -> Result<&Live, String> {
+        if self.live.is_none() {
+            let l = fresh(self.sd.as_ref().unwrap(), self.c.as_ref().unwrap())?;
+            self.live = Some(l);
+        }
+        Ok(self.live.as_ref().unwrap())
+    }
+}
+
+fn well_formed(sd: &SetupD, c: &ContentD) -> bool {
+    sd.holder_delay <= 2016 && c.htlcs.iter().all(|h| h.0 || h.3 < (1u32 << 31))
+}
+
+impl C04 {
+    /// run real phase 1 and evaluate the monitors; returns the output line
+    fn do_p1(&self, cx: &mut Ctx, co: &mut CaseOut, at: usize, tx: &Transaction, txb: &[u8], ws: &[Vec<u8>], unmutated: bool, label: &str) -> String {
+        let sd = cx.sd.clone().unwrap();
+        let c = cx.c.clone().unwrap();
+        let kt = cx.base.as_ref().unwrap().kt.clone();
+        let base_bytes = cx.base.as_ref().unwrap().bytes.clone();
+        let p2 = cx.p2.clone();
+        let live = match cx.live() { Ok(l) => l, Err(e) => { co.tags.insert("p1:no-channel".into()); return format!("reject # {}", e).split(" #").next().unwrap().to_string() } };
+        let res = real_p1(live, &sd, &c, tx, ws);
+        match res {
+            P1Res::Ok(sig, cs, bc, canon_bytes) => {
+                cx.live = None;
+                co.tags.insert(format!("p1:accept:{}", label));
+                if !verify_commit_sig(&kt, sd.chan_value, &canon_bytes, &sig) {
+                    co.violations.push(Violation { kind: "sig-not-canonical".into(), desc: format!("phase-1 signature does not verify under the funding key against the canonical tx of the recorded content ({} {})", cs, bc), at });
+                }
+                if canon_bytes != txb {
+                    if sd.mode != 2 {
+                        co.violations.push(Violation { kind: "mutated-tx-signed".into(), desc: format!("phase 1 accepted a transaction that is not the canonical transaction of the content it validated: submitted {} canonical {}", hex::encode(txb), hex::encode(&canon_bytes)), at });
+                    } else {
+                        co.tags.insert("p1:accept-nonstrict-mismatch".into());
+                        if commit_sighash(&kt, sd.chan_value, txb) != commit_sighash(&kt, sd.chan_value, &canon_bytes)
+                            && verify_commit_sig(&kt, sd.chan_value, txb, &sig) {
+                            co.violations.push(Violation { kind: "caller-tx-signed".into(), desc: "with policy-commitment demoted the signature is over the caller's transaction, not the recomposed one".into(), at });
+                        }
+                    }
+                }
+                if unmutated {
+                    if let Some(Some(s2)) = p2 {
+                        if s2 != sig {
+                            co.violations.push(Violation { kind: "phase-sig-differs".into(), desc: "phase-1(canon) and phase-2 signatures differ".into(), at });
+                        } else {
+                            co.tags.insert("phase-sig-equal".into());
+                        }
+                    }
+                }
+                if cs != c.to_cs || bc != c.to_bc { co.tags.insert("p1:accept-other-content".into()); }
+                let _ = base_bytes;
+                format!("accept {} {}", cs, bc)
+            }
+            P1Res::Err(m) => {
+                co.tags.insert(format!("p1:reject:{}:{}", classify_err(&m), label));
+                if unmutated {
+                    if let Some(Some(_)) = p2 {
+                        if sd.ctype == 'a' {
+                            co.violations.push(Violation { kind: "phase-disagree-nonzero-fee-anchors".into(), desc: format!("phase 2 accepts, phase 1 refuses the canonical tx for CommitmentType::Anchors: {}", m), at });
+                        } else if well_formed(&sd, &c) {
+                            co.violations.push(Violation { kind: "phase-disagree".into(), desc: format!("phase 2 accepted the content but phase 1 refuses its canonical transaction: {}", m), at });
+                        } else {
+                            co.tags.insert("phase-disagree-outside-wf".into());
+                        }
+                    }
+                }
+                "reject".into()
+            }
+            P1Res::Panic => {
+                cx.live = None;
+                co.tags.insert(format!("p1:panic:{}", label));
+                "reject".into()
+            }
+        }
+    }
+}
+
+impl Group for C04 {
+    fn property(&self) -> &'static str { "C04" }
+    fn model(&self) -> Option<&'static str> { Some("bolt3") }
+    fn rule(&self) -> &'static str {
+        "random channel setups (Legacy/StaticRemoteKey/Anchors/AnchorsZeroFeeHtlc, inbound/outbound, delays incl. 2016/2017, funding \
+         outpoint incl. vout>=65536, policy default/lenient/policy-commitment demoted) and counterparty commitment contents (0-30 HTLCs \
+         with duplicate hashes/values/cltv, values around the feerate- and type-dependent dust thresholds, one balance 0 or near 330, \
+         commitment numbers up to 2^48); per content the real LDK transaction is rendered and compared with the Lean canon, real phase 2 \
+         and phase 1 are run, and ~25 structured single-field mutations (version, locktime, sequence, outpoint, values, order, \
+         extra/missing outputs, every script-template parameter in spk and/or witness script) plus ~16 raw byte flips of tx and witness \
+         scripts go to the real phase 1; a case is non-trivial when phase 2 and phase-1(canon) accept a content with at least one HTLC \
+         and at least one mutation is refused"
+    }
+    fn budget(&self, tier: Tier) -> usize { if tier == Tier::Quick { 500 } else { 6000 } }
+    fn model_line(&self, op: &str) -> Option<String> {
+        if op.starts_with("impl ") || op.starts_with("p1raw ") { None } else { Some(op.to_string()) }
+    }
+    fn corpus(&self) -> Vec<Vec<String>> {
+        // the repository's own scenario (sign_commitment_tx_with_mutators_setup), static and anchors
+        let mut v = Vec::new();
+        for (t, mode) in [('s', 0u8), ('z', 0), ('a', 1), ('l', 0)] {
+            let sd = SetupD { ctype: t, outbound: true, holder_delay: 6, cp_delay: 7, txid: 2, vout: 0, chan_value: 3_000_000, mode, point: 10 };
+            let c = ContentD { commit_num: 23, feerate: 0, to_cs: 1_000_000, to_bc: 1_979_997 - if t == 'z' { 660 } else { 0 },
+                htlcs: vec![(true, 4000, 1, 2 << 16), (false, 5000, 3, 3 << 16), (false, 10_003, 5, 4 << 16)] };
+            if let Some(ops) = build_case(&sd, &c, &mut Rng::new(7), Tier::Quick) { v.push(ops); }
+        }
+        v
+    }
+    fn gen_case(&self, rng: &mut Rng, tier: Tier) -> Vec<String> {
+        for _ in 0..20 {
+            let (sd, c) = gen_setup_content(rng);
+            if let Some(ops) = build_case(&sd, &c, rng, tier) {
+                return ops;
+            }
+        }
+        vec!["impl 0 10".into()]
+    }
+    fn exec_case(&self, ops: &[String]) -> CaseOut {
+        let mut co = CaseOut::default();
+        let mut cx = Ctx { sd: None, c: None, base: None, live: None, p2: None };
+        let mut mode = 0u8;
+        let mut point = 10u8;
+        let (mut saw_accept_htlc, mut saw_reject_mut) = (false, false);
+        for (i, op) in ops.iter().enumerate() {
+            let t: Vec<&str> = op.split_whitespace().collect();
+            let line: String = match t[0] {
+                "impl" => { mode = t[1].parse().unwrap(); point = t[2].parse().unwrap(); "ok".into() }
+                "setup" => {
+                    let (ctype, outbound, hd, cd, txid, vout, cv) = parse_setup(&t).expect("setup");
+                    cx.sd = Some(SetupD { ctype, outbound, holder_delay: hd, cp_delay: cd, txid, vout, chan_value: cv, mode, point });
+                    cx.c = None; cx.base = None; cx.live = None; cx.p2 = None;
+                    co.tags.insert(format!("type:{}", ctype));
+                    co.tags.insert(format!("mode:{}", mode));
+                    "ok".into()
+                }
+                "content" => {
+                    let c = parse_content(&t).expect("content");
+                    let sd = cx.sd.clone().unwrap();
+                    cx.c = Some(c.clone()); cx.base = None; cx.live = None; cx.p2 = None;
+                    co.tags.insert(format!("htlcs:{}", match c.htlcs.len() { 0 => "0", 1..=5 => "1-5", 6..=15 => "6-15", _ => "16-30" }));
+                    match cx.live() {
+                        Err(e) => { co.tags.insert("content:no-channel".into()); format!("no-channel {}", e) }
+                        Ok(live) => match ldk_tx(live, &sd, &c) {
+                            Err(e) => { cx.live = None; if e == "panic" { co.tags.insert("content:panic".into()); "panic".into() } else { e } }
+                            Ok((tx, kt, _)) => {
+                                let (stx, ws, htlc_of) = render_tx(&sd, &c, &kt, &tx);
+                                let ldk_bytes = cons_serialize(&tx);
+                                let own = serialize(&stx, &kt);
+                                if own != ldk_bytes {
+                                    co.violations.push(Violation { kind: "canon-bytes-differ".into(), desc: format!("harness serialisation of the structured rendering differs from LDK's bytes: {} vs {}", hex::encode(&own), hex::encode(&ldk_bytes)), at: i });
+                                }
+                                let hf = htlc_tx_fields(&sd, &c, &htlc_of);
+                                let hs: Vec<String> = hf.iter().map(|f| format!("{}:{}:{}:{}:{}", f.0, f.1, f.2, f.3.map(|v| v.to_string()).unwrap_or("x".into()), if f.4 { 1 } else { 0 })).collect();
+                                let line = format!("{} | {}", show_tx_head(&stx), hs.join(" "));
+                                cx.base = Some(Base { kt, stx, ws, htlc_of, bytes: ldk_bytes });
+                                line
+                            }
+                        },
+                    }
+                }
+                "p2" => {
+                    let sd = cx.sd.clone().unwrap();
+                    let c = cx.c.clone().unwrap();
+                    cx.live = None;
+                    match fresh(&sd, &c) {
+                        Err(_) => { cx.p2 = Some(None); co.tags.insert("p2:no-channel".into()); "reject".into() }
+                        Ok(live) => match real_p2(&live, &sd, &c) {
+                            P2Res::Ok(sig, hsigs) => {
+                                co.tags.insert("p2:accept".into());
+                                cx.p2 = Some(Some(sig));
+                                if let Some(b) = &cx.base {
+                                    if !verify_commit_sig(&b.kt, sd.chan_value, &serialize(&b.stx, &b.kt), &sig) {
+                                        co.violations.push(Violation { kind: "sig-not-canonical".into(), desc: "phase-2 signature does not verify under the funding key against the canonical transaction".into(), at: i });
+                                    }
+                                    let hf = htlc_tx_fields(&sd, &c, &b.htlc_of);
+                                    if hf.len() != hsigs.len() {
+                                        co.violations.push(Violation { kind: "htlc-sig-invalid".into(), desc: format!("{} HTLC signatures for {} HTLC outputs", hsigs.len(), hf.len()), at: i });
+                                    } else {
+                                        for (f, s) in hf.iter().zip(hsigs.iter()) {
+                                            if !verify_htlc_sig(&sd, &c, &b.kt, &b.bytes, f, s) {
+                                                co.violations.push(Violation { kind: "htlc-sig-invalid".into(), desc: format!("HTLC signature for output {} does not verify against the HTLC transaction built from the canonical commitment (feerate {}, type {})", f.0, c.feerate, sd.ctype), at: i });
+                                                break;
+                                            }
+                                        }
+                                        if !hf.is_empty() { co.tags.insert("htlc-sigs-verified".into()); }
+                                    }
+                                }
+                                if !c.htlcs.is_empty() { saw_accept_htlc = true; }
+                                format!("accept {}", hsigs.len())
+                            }
+                            P2Res::Err(m) => {
+                                cx.p2 = Some(None);
+                                if std::env::var("C04_DEBUG").is_ok() { eprintln!("p2 reject: {}", m); }
+                                co.tags.insert(format!("p2:reject:{}", classify_err(&m)));
+                                "reject".into()
+                            }
+                            P2Res::Panic => { cx.p2 = Some(None); co.tags.insert("p2:panic".into()); "reject".into() }
+                        },
+                    }
+                }
+                "p1" => {
+                    if cx.base.is_none() { "reject".into() } else {
+                        let m: Vec<&str> = t[2..].to_vec();
+                        let (stx2, ws2) = { let b = cx.base.as_ref().unwrap(); match mutate(&b.stx, &b.ws, &m) { Some(x) => x, None => (b.stx.clone(), b.ws.clone()) } };
+                        let kt = cx.base.as_ref().unwrap().kt.clone();
+                        let txb = serialize(&stx2, &kt);
+                        let wsb: Vec<Vec<u8>> = ws2.iter().map(|w| w.as_ref().map(|t| script_bytes(t, &kt)).unwrap_or_default()).collect();
+                        match deserialize::<Transaction>(&txb) {
+                            Err(_) => { co.tags.insert("p1:undecodable".into()); "reject".into() }
+                            Ok(tx) => {
+                                let label = if m[0] == "tpl" || m[0] == "wit" || m[0] == "spk" { format!("{}-{}", m[0], m[2]) } else { m[0].to_string() };
+                                let l = self.do_p1(&mut cx, &mut co, i, &tx, &txb, &wsb, m[0] == "none", &label);
+                                if m[0] != "none" && l == "reject" && t[1] == "ok" { saw_reject_mut = true; }
+                                l
+                            }
+                        }
+                    }
+                }
+                "p1raw" => {
+                    if cx.base.is_none() { "reject".into() } else {
+                        let (kt, mut txb, mut wsb) = { let b = cx.base.as_ref().unwrap(); (b.kt.clone(), b.bytes.clone(), b.ws.iter().map(|w| w.as_ref().map(|t| script_bytes(t, &b.kt)).unwrap_or_default()).collect::<Vec<Vec<u8>>>()) };
+                        let _ = kt;
+                        let label;
+                        if t[1] == "tx" {
+                            let off: usize = t[2].parse().unwrap(); let x: u8 = t[3].parse().unwrap();
+                            if off < txb.len() { txb[off] ^= x; }
+                            label = "raw-tx";
+                        } else {
+                            let wi: usize = t[2].parse().unwrap(); let off: usize = t[3].parse().unwrap(); let x: u8 = t[4].parse().unwrap();
+                            if wi < wsb.len() && off < wsb[wi].len() { wsb[wi][off] ^= x; }
+                            label = "raw-ws";
+                        }
+                        match deserialize::<Transaction>(&txb) {
+                            Err(_) => { co.tags.insert("p1raw:undecodable".into()); "undecodable".into() }
+                            Ok(tx) => {
+                                // rust-bitcoin may re-serialise differently only if the flip hit a non-canonical varint; compare what the signer sees
+                                let seen = cons_serialize(&tx);
+                                let l = self.do_p1(&mut cx, &mut co, i, &tx, &seen, &wsb, false, label);
+                                if l == "reject" { saw_reject_mut = true; }
+                                l
+                            }
+                        }
+                    }
+                }
+                _ => "bad-op".into(),
+            };
+            co.out.push(line);
+        }
+        co.nontrivial = saw_accept_htlc && saw_reject_mut;
+        co
+    }
+}
+
+fn gen_setup_content(rng: &mut Rng) -> (SetupD, ContentD) {
+    let ctype = *rng.pick(&['s', 'z', 's', 'z', 'l', 'a']);
+    let mode = *rng.pick(&[0u8, 0, 0, 1, 1, 2]);
+    let mode = if (ctype == 'l' || ctype == 'a') && mode == 0 { if rng.chance(1, 2) { 1 } else { 0 } } else { mode };
+    let delay = |rng: &mut Rng, lenient: bool| -> u16 {
+        match rng.below(10) {
+            0 => 2016,
+            1 if lenient => 2017,
+            2 if lenient => *rng.pick(&[0u16, 1, 3, 16, 17, 128, 32768, 65535]),
+            3 => 4,
+            4 => 144,
+            _ => rng.range(5, 1000) as u16,
+        }
+    };
+    let holder_delay = delay(rng, mode >= 1);
+    let cp_delay = if rng.chance(1, 4) { holder_delay } else { delay(rng, mode >= 1) };
+    let chan_value = match rng.below(5) { 0 => 3_000_000, 1 => rng.range(100_000, 1_000_000), 2 => 1_000_000_000, _ => rng.range(1_000_000, 20_000_000) };
+    let sd = SetupD {
+        ctype, outbound: rng.chance(1, 2), holder_delay, cp_delay,
+        txid: rng.range(1, 250) as u8,
+        vout: match rng.below(8) { 0 => 65535, 1 => 65536 + rng.below(3) as u32, 2 => 0, _ => rng.below(20) as u32 },
+        chan_value, mode, point: rng.range(10, 60) as u8,
+    };
+    let feerate: u32 = match rng.below(8) { 0 => 0, 1 => 253, 2 => 1000, 3 => 7500, 4 => 25_000, 5 => rng.below(100_000) as u32, _ => rng.range(253, 5000) as u32 };
+    let n = match rng.below(20) { 0 | 1 | 2 => 0, 3..=12 => rng.range(1, 5), 13..=17 => rng.range(6, 15), _ => rng.range(16, 30) } as usize;
+    let w = |off: bool| -> u64 { match (off, ctype == 'z') { (true, true) => 666, (true, false) => 663, (false, true) => 706, (false, false) => 703 } };
+    let thr = |off: bool| -> u64 { if ctype == 'z' { 330 } else { 354 + feerate as u64 * w(off) / 1000 } };
+    let mut htlcs: Vec<(bool, u64, i64, u32)> = Vec::new();
+    // contents below the dust thresholds are refused by the validator before anything is built: keep them to a quarter of the cases
+    let dusty = rng.chance(1, 4);
+    for _ in 0..n {
+        if !htlcs.is_empty() && rng.chance(1, 6) {
+            // duplicate of an earlier HTLC, possibly differing in one field
+            let mut h = *rng.pick(&htlcs);
+            match rng.below(5) { 0 => h.3 = h.3.wrapping_add(1), 1 => h.1 += 1, 2 => { h.0 = !h.0; if !dusty { h.1 = h.1.max(thr(h.0)); } } _ => {} }
+            htlcs.push(h);
+            continue;
+        }
+        let off = rng.chance(1, 2);
+        let value = match rng.below(10) {
+            0 => thr(off),
+            1 => thr(off) + 1,
+            2 if dusty => thr(off).saturating_sub(1),
+            3 => thr(!off).max(thr(off)),
+            4 if dusty => rng.range(1, 400),
+            _ => rng.range(thr(off), thr(off) + 50_000),
+        };
+        let hash = if rng.chance(1, 4) { rng.range(1, 6) as i64 } else { rng.range(1, 100_000) as i64 };
+        let cltv = match rng.below(12) {
+            0 => 499_999_999,
+            1 if mode >= 1 => 500_000_000,
+            2 if mode >= 1 => *rng.pick(&[(1u32 << 31) - 1, 1u32 << 31, u32::MAX]),
+            3 => rng.below(17) as u32,
+            4 => *rng.pick(&[127u32, 128, 255, 256, 32767, 32768, 65535, 65536, 8388607, 8388608]),
+            _ => rng.range(100, 900_000) as u32,
+        };
+        htlcs.push((off, value, hash, cltv));
+    }
+    let sum_htlc: u64 = htlcs.iter().map(|h| h.1).sum();
+    let weight = (if is_anchors(ctype) { 1124 } else { 724 }) + 172 * n as u64;
+    let rate = match rng.below(10) { 0 => 253, 1 => 252, 2 => 333_333, 3 => 400_000, _ => rng.range(300, 20_000) };
+    let fee = rate * weight / 1000 + rng.below(2);
+    let anchors = if ldk_anchors(ctype) { 660 } else { 0 };
+    let avail = chan_value.saturating_sub(sum_htlc + fee + anchors);
+    let (to_cs, to_bc) = match rng.below(12) {
+        0 => (0, avail),
+        1 => (avail, 0),
+        2 => (if dusty { 329 } else { *rng.pick(&[330u64, 331]) }, avail.saturating_sub(331)),
+        3 => (avail.saturating_sub(331), if dusty { 329 } else { *rng.pick(&[330u64, 331]) }),
+        4 => (avail / 2, avail - avail / 2), // equal or adjacent values
+        5 if sum_htlc > 0 => { let v = htlcs[0].1; (v, avail.saturating_sub(v)) } // same value as an HTLC
+        _ => { let a = rng.range(330.min(avail), avail.saturating_sub(330).max(330.min(avail))); (a, avail - a.min(avail)) }
+    };
+    let commit_num = match rng.below(10) {
+        0 => 1, 1 => 23, 2 => (1u64 << 48) - 1, 3 => (1u64 << 24) - 1 + rng.below(3), 4 => rng.range(1, (1u64 << 48) - 1),
+        5 if rng.chance(1, 4) => 1u64 << 48,
+        _ => rng.range(1, 1_000_000),
+    };
+    (sd, ContentD { commit_num, feerate, to_cs, to_bc, htlcs })
+}
+
+/// Build the op lines of one case (consults the implementation for keys, ranks and policy verdicts).
+fn build_case(sd: &SetupD, c: &ContentD, rng: &mut Rng, tier: Tier) -> Option<Vec<String>> {
+    let live = fresh(sd, c).ok()?;
+    let (kt, obs) = keys_only(&live, sd);
+    let mut ops = vec![
+        format!("impl {} {}", sd.mode, sd.point),
+        format!("setup {} {} {} {} {} {} {} {} {}", sd.ctype, if sd.outbound { 1 } else { 0 }, sd.holder_delay, sd.cp_delay, sd.txid, sd.vout, sd.chan_value, obs, if sd.mode == 2 { 0 } else { 1 }),
+        content_line(sd, c, &kt),
+    ];
+    let base_pol = pol_of(sd, c);
+    ops.push(format!("p2 {}", base_pol.s()));
+    ops.push(format!("p1 {} none", base_pol.s()));
+    // the structured base transaction (from the real builder) to aim mutations at
+    let (tx, _, _) = match ldk_tx(&live, sd, c) { Ok(x) => x, Err(_) => return Some(ops) };
+    let (stx, ws, _) = render_tx(sd, c, &kt, &tx);
+    let n = stx.outs.len();
+    let mut muts: Vec<String> = Vec::new();
+    let lt = stx.locktime as u64;
+    let sq = stx.inputs[0].sequence as u64;
+    for m in [
+        "ver 1".to_string(), "ver 3".into(), "ver 0".into(), format!("ver {}", 2u64 + (1 << 31)),
+        format!("lock {}", lt ^ 1), format!("lock {}", lt ^ (1 << 23)), format!("lock {}", lt ^ (1 << 29)), "lock 0".into(),
+        format!("seq {}", sq ^ 1), format!("seq {}", sq ^ (1 << 31)), format!("seq {}", 0xffff_ffffu32),
+        format!("intxid {}", (sd.txid as u64 % 250) + 1), format!("invout {}", (sd.vout % 65536) ^ 1), format!("invout {}", sd.vout),
+        format!("invout {}", (sd.vout % 65536) + 65536),
+        "scriptsig".into(), "witness".into(), "addin".into(),
+        "addwpkh 1000 9".into(), "addwpkh 330 5".into(), "addunk 1000 1".into(), "wslen".into(),
+    ] { muts.push(m); }
+    for i in 0..n {
+        let v = stx.outs[i].value;
+        muts.push(format!("val {} {}", i, v + 1));
+        muts.push(format!("val {} {}", i, v.saturating_sub(1)));
+        if rng.chance(1, 3) { muts.push(format!("val {} 0", i)); }
+        muts.push(format!("drop {}", i));
+        muts.push(format!("dup {}", i));
+        muts.push(format!("wsdrop {}", i));
+        if i + 1 < n { muts.push(format!("swap {} {}", i, i + 1)); }
+        if n > 2 { let j = rng.below(n as u64) as usize; if j != i { muts.push(format!("swap {} {}", i, j)); } }
+        let fields: Vec<(&str, Vec<i64>)> = match &stx.outs[i].spk {
+            Spk::Wpkh(_) => vec![("key", vec![9, 0, 6]), ("unknown", vec![3])],
+            Spk::Wsh(Tpl::Local { delay, .. }) => vec![
+                ("delay", vec![delay + 1, delay - 1, sd.cp_delay as i64, -1, 0, 2016, 2017, 16, 17, 1 << 31]),
+                ("rev", vec![9, 0, 2]), ("delayed", vec![9, 0, 1]), ("unknown", vec![1])],
+            Spk::Wsh(Tpl::Recv { cltv, .. }) => vec![
+                ("cltv", vec![cltv + 1, cltv - 1, -1, 0]), ("rev", vec![9, 2]), ("k1", vec![9, 3, 0]), ("k2", vec![9, 4]),
+                ("hash", vec![7_000_001]), ("hashlen", vec![19, 21]), ("csv", vec![0]), ("unknown", vec![2])],
+            Spk::Wsh(Tpl::Off { .. }) => vec![
+                ("rev", vec![9, 2]), ("k1", vec![9, 3]), ("k2", vec![9, 4, 0]),
+                ("hash", vec![7_000_002]), ("hashlen", vec![19, 21]), ("csv", vec![0]), ("unknown", vec![2])],
+            Spk::Wsh(Tpl::Anchor(k)) => vec![("key", vec![9, 0, if *k == 6 { 7 } else { 6 }]), ("unknown", vec![4])],
+            Spk::Wsh(Tpl::RemoteA(_)) => vec![("key", vec![9, 0, 7]), ("unknown", vec![5])],
+            _ => vec![],
+        };
+        for (f, vals) in fields {
+            for v in vals {
+                muts.push(format!("tpl {} {} {}", i, f, v));
+                muts.push(format!("wit {} {} {}", i, f, v));
+                muts.push(format!("spk {} {} {}", i, f, v));
+            }
+        }
+    }
+    // sample
+    let want = if tier == Tier::Quick { 26 } else { 60 };
+    let mut chosen: Vec<String> = Vec::new();
+    if muts.len() <= want { chosen = muts; } else {
+        // always keep a few of the sharpest ones when present
+        let sharp: Vec<String> = muts.iter().filter(|m| m.contains(" delay ") && (m.starts_with("tpl") )).take(2).cloned().collect();
+        chosen.extend(sharp);
+        while chosen.len() < want {
+            let m = rng.pick(&muts).clone();
+            if !chosen.contains(&m) { chosen.push(m); }
+        }
+    }
+    let mut pol_cache: BTreeMap<(u64, u64), Pol> = BTreeMap::new();
+    pol_cache.insert((c.to_cs, c.to_bc), base_pol);
+    for m in chosen {
+        let toks: Vec<&str> = m.split_whitespace().collect();
+        let pol = match mutate(&stx, &ws, &toks) {
+            None => base_pol,
+            Some((s2, _)) => {
+                let (cs, bc) = predicted_balances(sd, &s2);
+                *pol_cache.entry((cs, bc)).or_insert_with(|| {
+                    let mut c2 = c.clone();
+                    c2.to_cs = cs;
+                    c2.to_bc = bc;
+                    pol_of(sd, &c2)
+                })
+            }
+        };
+        ops.push(format!("p1 {} {}", pol.s(), m));
+    }
+    // raw byte flips (implementation only)
+    let txb = cons_serialize(&tx);
+    let nraw = if tier == Tier::Quick { 10 } else { 40 };
+    for _ in 0..nraw {
+        let off = rng.below(txb.len() as u64);
+        ops.push(format!("p1raw tx {} {}", off, 1u8 << rng.below(8)));
+    }
+    let nws = if tier == Tier::Quick { 6 } else { 24 };
+    for _ in 0..nws {
+        if n == 0 { break; }
+        let wi = rng.below(n as u64) as usize;
+        let len = ws[wi].as_ref().map(|t| script_bytes(t, &kt).len()).unwrap_or(0);
+        if len == 0 { continue; }
+        ops.push(format!("p1raw ws {} {} {}", wi, rng.below(len as u64), 1u8 << rng.below(8)));
+    }
+    Some(ops)
+}
 
 pub fn groups() -> Vec<Box<dyn Group>> {
-    vec![]
+    vec![Box::new(C04)]
 }
